@@ -92,6 +92,12 @@ def make_fault(rng, prog, cls, block):
     if cls == "immediate-range":
         return rng.choice(["lda #300", "cpx #256", "ora #$1ff", "ldy #65535"]), "last"
     if cls == "branch-range":
+        if not extra["in_loop"] and not extra["in_macro"] and rng.random() < 0.3:
+            # just out of range, to a label: the failing branch emits nothing, so every other pass the label is within reach again
+            n = rng.choice([128, 129, 130])
+            if rng.random() < 0.5:
+                return "bne far_zz\n" + "nop\n" * n + "far_zz:", "any"
+            return "back_zz:\n" + "nop\n" * (n - 1) + "bne back_zz", "any"
         return rng.choice(["bne * + 300", "beq * - 200", "bcc * + 130", "bpl * - 127"]), "last"
     if cls == "macro-arity":
         macros = [s for s in prog.all_stmts() if s.k == "macrodef"]
@@ -233,7 +239,9 @@ def shard(idx, n, seed, tier, params):
             acc.violation("no-located-diagnostic|%s|%s" % (cls, pos_cls), "no diagnostic with a location: %s" % r["out"][-200:], w)
             continue
         hits = [d for d in diags if os.path.basename(d[0]) == os.path.basename(file) and d[1] in ok_lines]
-        if not hits and cls in ("undefined-symbol", "undefined-macro", "undefined-segment", "macro-arity") and all("branch too far" in d[3] for d in diags):
+        if not hits and (cls in ("undefined-symbol", "undefined-macro", "undefined-segment", "macro-arity") or (cls == "branch-range" and "_zz" in text)) \
+                and all("branch too far" in d[3] for d in diags):
+            # (or: the 130 bytes that were put in pushed a branch of the program itself out of range)
             # the statement with the unknown name emits nothing, which moves what follows: a branch elsewhere got out of range,
             # and an error of that kind is reported before unknown names are. The program now has two faults; the report of the
             # other one is located correctly as far as this check can tell, so this case is not judged.
